@@ -380,7 +380,7 @@ PROPS["C06"]["assumptions"] = PROPS["C06"]["assumptions"] + [
 # the same engine restricted to the phases of the property's own cache: a concurrency-only defect of that cache is then reported by
 # the property's own check too, not only by C14 (validation beyond the sequential quantifier of these properties)
 for _p, _what in (("C12", "immunity-cache, cross-tx-cache and immunity-clear"), ("C13", "immunity-cache, cross-tx-cache and immunity-clear"),
-                  ("C15", "lru and capacity-lru"), ("C20", "fifo-sharded"), ("C05", "txcache add-only, mixed and clear")):
+                  ("C15", "lru and capacity-lru"), ("C20", "fifo-sharded"), ("C05", "txcache limits, mixed, evict, add-only, clear and concurrent-map")):
     PROPS[_p]["extras"] = PROPS[_p].get("extras", []) + [{"component": "stress", "race": True, "timeout": 600}]
     PROPS[_p]["race"] = True
     PROPS[_p]["rule"] += " extra (race-detector binary, beyond the sequential quantifier): 12 rounds of the %s stress phases of the C14 engine with their monitors." % _what
